@@ -286,7 +286,7 @@ def size_checks(cx):
                 raise AnalysisError(DATA + ': cannot find the element width of `%s`' % norm_stmt(m))
             prod = '%s[0] * %s[1] * (%s // 8)' % (S, S, nb)
         want = sym.norm('(%s) != ((end + 1) - begin) and (%s) != (end - begin)' % (prod, prod))
-        gs = [(g, p) for g, p in guards(fn, exc=['ValueError']) if sym.norm(g.test) == want and not p]
+        gs = [(g, p) for g, p in guards(fn, exc=['ValueError']) if fn.eqv(g.test, want) is not None and not p]
         dom = [g for g, p in gs if guard_dominates(fn, g, False, m)]
         ok = len(dom) == 1
         # shape variable not redefined between check and map
@@ -298,13 +298,8 @@ def size_checks(cx):
               key='size-check|' + S + '|' + ('u8' if sym.norm(dt) == ('const', 'uint8') else 'typed'))
         # the mapped array is materialised (np.array / consumed) - not returned lazily with a closed file
     # sibling agreement of the three checks after renaming their size product
-    nfs = []
-    for c in checks:
-        if c is None:
-            continue
-        t = sym.norm(c.test)
-        nfs.append(t[0])
-    fn.ob('SIB', 'the three size checks have the same shape', len(set(nfs)) <= 1 and len(nfs) == 3, fn.ast, key='size-sib')
+    nfs = [c for c in checks if c is not None]
+    fn.ob('SIB', 'the three size checks are alike (each matched the same documented comparison)', len(nfs) == 3, fn.ast, key='size-sib')
     return fn
 
 
